@@ -4,73 +4,117 @@ Three parties per case:
   * the implementation: the real public methods of Image / MaskedImage / BooleanImage with return_transform=True;
   * the property oracle (independent of the Lean model): on images whose channels are known analytically
     (affine ramps a + b*i + c*j, i.e. generalised identity-coordinate images) it checks that
-      O1  the returned transform maps the returned landmarks onto the original ones,
+      O1  the returned transform maps the returned landmarks onto the original ones (sequences: the composition),
       O2  sampling the result at a returned landmark gives the original content at the original landmark
-          (bilinear results: affine channels, only where the landmark's cell is sampled inside the source;
-           nearest-neighbour results and boolean images: landmarks that land on a grid point, any content),
-      O3  result pixels are the source at (returned transform)(pixel index)  - pixels, mask, boolean pixels,
-      O5  class / landmark groups are kept;
-  * the Lean model (Core/C01Warp.lean through Drive/C01.lean): template shape, the transform handed to
-    warp_to_shape, landmarks, and a sample of result pixels + mask pixels for arbitrary content.
+          (bilinear results: affine channels, only where the landmark's cell is sampled inside the source - exactly
+           the content at the transform interpolated over that cell, hence within sum |slope| |interp - l| of the
+           content at the original landmark; nearest-neighbour results and boolean images: landmarks that land on a
+           grid point, any content; spline orders 2-5: landmarks on a grid point against the source sampled with the
+           same order; crop family and mirror: any content, any sub-pixel landmark),
+      O3  result pixels are the source at (returned transform)(pixel index)  - pixels (every order), mask, boolean pixels,
+      O5  class / landmark groups are kept; the call without return_transform gives the same image;
+  * the Lean model (Core/C01Warp.lean + Core/C01Ext.lean through Drive/C01.lean): template shape, the transform handed
+    to warp_to_shape, landmarks (per family class: by the closed form of its pseudoinverse supplier), a sample of
+    result pixels + mask pixels for arbitrary content, whole operation sequences, gaussian pyramid levels incl. the
+    blurred border, the result read back at landmarks under non-affine transforms; plus the exact quantities behind the
+    square-root contract parameters.
+Tables regenerated from the live classes on every run: harness/extract_c01.py.
 """
 import json
 import math
 from fractions import Fraction as F
 
 from . import common
+from . import extract_c01
 from .common import fq, close
 
 PROP = "C01"
 INFO = dict(
-    technique="Lean 4 proof (multilinear interpolation reproduces affine content; the warp funnel registers pixels, "
-              "mask and landmarks through one map; every operation's template->source map is invertible on its "
-              "domain; crop / mirror / rescale / about-centre / pyramid per-operation laws) + model/implementation "
-              "correspondence (query protocol: shapes, transforms, landmarks, sampled pixels and mask pixels) + an "
-              "independent registration oracle on analytically known images",
+    technique="Lean 4 proof (multilinear interpolation reproduces affine content and is a convex combination of the cell's "
+              "grid points; the warp funnel registers pixels, mask and landmarks through one map for every interpolation "
+              "order; exact value and error bound of a warped affine image under an arbitrary transform; every public "
+              "operation's template->source map is invertible on its domain; per-operation laws; invariants over "
+              "operation sequences; a symmetric normalised blur keeps an affine ramp; pseudoinverse closed forms of the "
+              "homogeneous family) + 6 `decide` obligations over tables regenerated from the live classes on every run "
+              "(method resolution and defaults of the three image classes, pseudoinverse suppliers of the family, the "
+              "arguments each operation hands to warp_to_shape) + model/implementation correspondence (query protocol: "
+              "shapes, transforms, landmarks, sampled pixels and mask pixels, whole operation sequences) + an independent "
+              "registration oracle on analytically known images",
     level_text="Theorems over an executable rational model of Image.sample (scipy map_coordinates, orders 0/1, modes "
                "constant/nearest), Image.warp_to_shape / warp_to_mask and of the plan (template shape, transform, forced "
-               "order, mode) each public operation builds: bilinear/trilinear sampling reproduces affine content; for "
-               "every invertible affine T and affine content, sampling the warped image at T^-1(l) gives the original "
+               "order, mode) each public operation builds.  Part 1: bilinear/trilinear sampling reproduces affine content; "
+               "for every invertible affine T and affine content, sampling the warped image at T^-1(l) gives the original "
                "content at l whenever the landmark's cell is sampled inside the source (2-D and 3-D), and for arbitrary "
-               "content and both orders whenever T^-1(l) is a grid point; the same holds for any transform that is "
-               "affine on the landmark's cell (piecewise affine) or sends a grid point to the landmark (spline control "
-               "points); pixels and mask are sampled through one T (mask with order 0); the returned transform maps the "
-               "returned landmarks onto the originals; each operation (rescale family, resize, crop family, zoom, "
-               "rotate, transform_about_centre with/without retain_shape, mirror, warp_to_shape, pyramid step; 3-D: "
-               "rescale, resize, crop, zoom, mirror, warp_to_shape) yields an invertible T on its documented domain; crop "
-               "is pixel exact with landmarks shifted by the same integer offset; mirror is an involution; "
-               "transform_about_centre re-origins the source box into the template frame; rescale scales pixel centres. "
-               "Tied to /repo by running every public operation on Image/MaskedImage/BooleanImage (float64/float32/uint8, "
-               "1-4 channels, 2-D and 3-D) with return_transform=True and diffing shape, transform, landmarks, sampled "
-               "pixels and mask pixels against the Lean driver; the registration oracle decides the property on the real code.",
-    level_note="Trusted: Lean kernel; axioms propext/Classical.choice/Quot.sound; harness; driver parser.  Contract "
-               "parameters (checked numerically on every run, not proved): scipy.ndimage.map_coordinates implements "
-               "orders 0/1 with the half-up rounding and the constant/nearest boundary rules of the model; "
-               "Homogeneous.pseudoinverse() is the matrix inverse (property C04); numpy cos/sin of the generated angle "
-               "return the generating point of the unit circle; PiecewiseAffine/ThinPlateSplines .apply and "
-               ".pseudoinverse (C04, C09) are taken as given functions: the model receives the sampling points they "
-               "produce.  Integer dtypes: the model is exact, the implementation rounds the interpolated value "
-               "(compared to within half a level).",
-    rule="a case = one public operation call on one image (class, dtype, shape, channel contents, mask, landmark groups, "
-         "parameters); distinct = distinct (operation, class, dtype, shape, parameters, landmarks); non-trivial = the "
-         "operation's transform is not the identity and at least one landmark was checked for registration against the "
-         "pixels, or (nearest-neighbour results) the landmarks were checked against the returned transform and at least one "
-         "result pixel against the source through that transform",
-    partial=["smooth non-affine warps (thin plate splines; piecewise affine across triangle borders): the theorem covers "
-             "landmarks on grid points and cells inside one affine piece; elsewhere the clause is decided by the oracle "
-             "with a tolerance computed from the transform's non-linearity on the landmark's cell",
-             "interpolation orders 2-5 (spline prefilter) are not modelled; orders 0 and 1 are",
-             "gaussian_pyramid: the blur is library code; landmarks/shape are modelled as pyramid, pixels are decided by "
-             "the oracle away from the borders",
+               "content and both orders whenever T^-1(l) is a grid point; pixels and mask are sampled through one T (mask "
+               "with order 0); the returned transform maps the returned landmarks onto the originals; each operation "
+               "(rescale family, resize, crop family, zoom, rotate, transform_about_centre with/without retain_shape, "
+               "mirror, warp_to_shape, pyramid step; 3-D: rescale, resize, crop, zoom, mirror, warp_to_shape) yields an "
+               "invertible T on its documented domain; crop is pixel exact with landmarks shifted by the same integer "
+               "offset; mirror is an involution; transform_about_centre re-origins the source box into the template frame; "
+               "rescale scales pixel centres.  Part 2: (a) every interpolation order 0..5 - landmarks, returned transform "
+               "and mask do not depend on the order (nor do the pixels of a BooleanImage, of the crop family, of "
+               "rescale_to_diagonal and of the pyramids, whose order is fixed), each result pixel is the source sampled "
+               "with the effective order at T(pixel), and for any interpolating sampler the result read at a returned "
+               "landmark on the grid is the source sampled with that order at the original landmark; (b) arbitrary "
+               "transforms (piecewise affine across triangle borders, thin plate splines): for affine content the bilinear "
+               "result read at a returned landmark l' is exactly the content at interpT(l'), the transform interpolated "
+               "bilinearly over the cell of l', hence differs from the content at the original landmark l by at most "
+               "sum_k |slope_k| |interpT(l')_k - l_k|, and by at most (|b|+|c|) eps when the transform stays within eps of "
+               "an affine map sending l' to l on that cell; (c) rescale_to_diagonal (order fixed to 1; the extents before "
+               "rounding have exactly the requested diagonal), rescale_to_pointcloud (the scale handed to rescale is exactly "
+               "k when the target is the group scaled by k and translated), rescale_landmarks_to_diagonal_range (the scaled "
+               "bounding box has the requested diagonal), the whole crop family incl. MaskedImage.crop_to_true_mask (exact "
+               "registration for arbitrary content and sub-pixel landmarks), constrain_landmarks_to_bounds; (d) "
+               "gaussian_pyramid: a symmetric kernel of total weight 1 with scipy's reflect rule reproduces an affine ramp "
+               "at every pixel at least one radius from the border, hence every level is registered for landmarks whose "
+               "cell is sampled there; (e) sequences of operations: by induction over the operation list the composition of "
+               "the returned transforms is invertible and maps the final landmarks onto the first ones (also: every level "
+               "of pyramid and gaussian_pyramid); (f) the closed forms Rotation(inv R), NonUniformScale(1/s), "
+               "UniformScale(1/s), Translation(-t) are the matrix inverse on the matrices their classes hold, so every class "
+               "of the family moves landmarks by the inverse of the map used for the pixels; (g) each operation hands "
+               "warp_to_shape exactly the order/mode its plan carries.  Tied to /repo by three tables regenerated from the "
+               "live classes on every run (6 decide obligations) and by running every public operation on "
+               "Image/MaskedImage/BooleanImage (float64/float32/uint8/uint16/int16/int32, 1-4 channels, 2-D and 3-D, "
+               "orders 0-5, every class of the homogeneous family as the transform argument, C-contiguous, Fortran-ordered "
+               "and strided pixel buffers, images that are themselves results of earlier operations) with "
+               "return_transform=True and diffing shape, transform, landmarks, sampled pixels and mask pixels against the "
+               "Lean driver; the registration oracle decides the property on the real code.",
+    level_note="Trusted: Lean kernel; axioms propext/Classical.choice/Quot.sound; harness incl. harness/extract_c01.py; driver "
+               "parser.  Contract parameters (checked numerically on every run, not proved): scipy.ndimage.map_coordinates "
+               "implements orders 0/1 with the half-up rounding and the constant/nearest boundary rules of the model, and "
+               "orders 2-5 are interpolating (return the pixel at a grid point); np.linalg.inv is the matrix inverse (the "
+               "closed-form pseudoinverses of Rotation / the scales / Translation are proved, the generic one is C04); "
+               "numpy cos/sin of the generated angle return the generating point of the unit circle; the square roots "
+               "behind rescale_to_diagonal / rescale_to_pointcloud / rescale_landmarks_to_diagonal_range (their squares are "
+               "compared with the model's exact quantities); scipy's gaussian kernel is symmetric, of total weight 1 and "
+               "radius int(4 sigma + 0.5) (measured as an impulse response on every run; the blurred pixels are compared "
+               "with the model incl. the reflected border); PiecewiseAffine/ThinPlateSplines .apply and .pseudoinverse "
+               "(C04, C09) are taken as given functions: the model receives the points they produce.  Integer dtypes: the "
+               "model is exact, the implementation rounds the interpolated value (compared to within half a level).",
+    rule="a case = one public operation call (or one sequence of 2-3 calls) on one image (class, dtype, buffer layout, shape, "
+         "channel contents, mask, landmark groups, parameters); distinct = distinct (operation, class, dtype, shape, "
+         "parameters, landmarks); non-trivial = the operation's transform is not the identity and at least one landmark was "
+         "checked for registration against the pixels, or (nearest-neighbour and spline results) the landmarks were checked "
+         "against the returned transform and at least one result pixel against the source through that transform",
+    partial=["thin plate splines: ThinPlateSplines.pseudoinverse is not an exact inverse away from the control points, so "
+             "the returned landmark l' satisfies T(l') = l only approximately; the theorems bound the registration error by "
+             "the distance between interpT(l') and l (exact identity + bound, any transform) - how small that distance is for "
+             "a given spline is measured by the oracle, not proved",
+             "interpolation orders 2-5: the spline sampler is a contract parameter (interpolating); what is proved for them "
+             "is order independence of landmarks/transform/mask, the funnel identity and registration on grid points; the "
+             "reproduction of affine content by splines (which holds only away from the border) is not modelled",
              "outputs with an extent of a single pixel (scale*len <= 1) are outside the modelled domain: the index-space "
              "factor of Image.rescale is 0 or negative there and no registration is possible on one pixel",
-             "integer dtypes: registration holds up to the rounding of the stored value (half a level per resampling)"],
-    assumptions=["scipy.ndimage.map_coordinates orders 0/1 follow the documented constant/nearest rules",
-                 "numpy trigonometric functions are accurate to 1e-12",
+             "integer dtypes: registration holds up to the rounding of the stored value (half a level per resampling)",
+             "MaskedImage.constrain_mask_to_landmarks / BooleanImage.constrain_to_landmarks / constrain_to_pointcloud change "
+             "the mask by a point-in-triangulation test and do not resample or re-frame: not modelled",
+             "3-D: the part-2 theorems (orders above 1, non-affine bound, sequences) are stated in 2-D only"],
+    assumptions=["scipy.ndimage.map_coordinates orders 0/1 follow the documented constant/nearest rules; orders 2-5 interpolate",
+                 "numpy trigonometric functions and square roots are accurate to 1e-12",
                  "ThinPlateSplines.pseudoinverse is repaired (notes/fixes/C04-tps-pseudoinverse-kernel.diff); on a tree "
                  "without that fix the TPS landmark clause is reported as a violation"],
     design_ref="DESIGN.md section 6, C01")
-IMPORTS = ["MenpoModel.Props.C01"]
+IMPORTS = ["MenpoModel.Props.C01", "MenpoModel.GenProps.C01"]
 THEOREMS = [
     "MenpoModel.C01.bilin_reproduces_affine", "MenpoModel.C01.trilin_reproduces_affine",
     "MenpoModel.C01.funnel_pixel", "MenpoModel.C01.warpF_registration_affine2",
@@ -88,12 +132,48 @@ THEOREMS = [
     "MenpoModel.C01.about_plan_invertible",
     "MenpoModel.C01.rotate_plan_defined", "MenpoModel.C01.about_corners_in_frame",
     "MenpoModel.C01.mirror_plan_invertible", "MenpoModel.C01.mirror_involution", "MenpoModel.C01.mirror_pixels",
-    "MenpoModel.C01.warp_plan_invertible", "MenpoModel.C01.pyramid_step_registered",
+    "MenpoModel.C01.warp_plan_invertible", "MenpoModel.C01.pyramid_step_is_rescale",
+    "MenpoModel.C01.pyramid_step_registered",
     "MenpoModel.C01.plan2_T_invertible", "MenpoModel.C01.plan3_T_invertible",
+    # part 2 (Props/C01.lean): every interpolation order
+    "MenpoModel.C01.funnelS_pixel", "MenpoModel.C01.samplerOf_interpolating", "MenpoModel.C01.warpS_registration_grid2",
+    "MenpoModel.C01.exec_order_independent", "MenpoModel.C01.exec_parts", "MenpoModel.C01.exec_pixel_any_order",
+    "MenpoModel.C01.exec_agrees_with_run", "MenpoModel.C01.exec_registration_grid_any_order",
+    # smooth non-affine warps
+    "MenpoModel.C01.axis1_linear_two_point", "MenpoModel.C01.core2_linear_four_point",
+    "MenpoModel.C01.core2_linear_comb_local", "MenpoModel.C01.core2_linear_close_local", "MenpoModel.C01.interpT_affine",
+    "MenpoModel.C01.warpF_registration_exact2", "MenpoModel.C01.warpF_registration_bound2",
+    "MenpoModel.C01.interpT_close_to_affine", "MenpoModel.C01.warpF_registration_lipschitz2",
+    "MenpoModel.C01.warpF_registration_affine2_from_bound",
+    # remaining entry points
+    "MenpoModel.C01.rescale_plan_fields", "MenpoModel.C01.rescale_to_diagonal_plan",
+    "MenpoModel.C01.rescale_to_diagonal_defined", "MenpoModel.C01.centredSS_scaled",
+    "MenpoModel.C01.rescale_to_pointcloud_scale", "MenpoModel.C01.rescale_to_pointcloud_plan_invertible",
+    "MenpoModel.C01.rescale_landmarks_to_diagonal_range_plan", "MenpoModel.C01.crop_family_is_crop",
+    "MenpoModel.C01.crop_family_exact_registration", "MenpoModel.C01.constrain_landmark_spec",
+    "MenpoModel.C01.plan2_T_invertible_ext",
+    "MenpoModel.C01.axis1_linear_flip", "MenpoModel.C01.mirror_exact_registration_linear",
+    "MenpoModel.C01.rescale_plan_shape", "MenpoModel.C01.rescale_landmark",
+    "MenpoModel.C01.rescale_landmarks_stay_inside", "MenpoModel.C01.rescale_registration",
+    # gaussian pyramid
+    "MenpoModel.C01.blurAxis_affine_interior", "MenpoModel.C01.blur2_affine_interior",
+    "MenpoModel.C01.warpF_registration_affine2_local", "MenpoModel.C01.gauss_step_registration",
+    # sequences of operations
+    "MenpoModel.C01.Aff2.inv_comp_apply", "MenpoModel.C01.chain_registered", "MenpoModel.C01.chain_registered_from_start",
+    "MenpoModel.C01.pyramid_levels_registered", "MenpoModel.C01.gauss_pyramid_levels_registered",
+    # pseudoinverse of every family class; the single funnel
+    "MenpoModel.C01.pinv_sound", "MenpoModel.C01.family_pinv_registers", "MenpoModel.C01.plan_funnel_args",
+    "MenpoModel.C01.expectedFunnel_eq",
+    # obligations over the tables regenerated from the live code
+    "MenpoModel.C01.GenProps.dispatch_ok", "MenpoModel.C01.GenProps.family_ok", "MenpoModel.C01.GenProps.family_sound",
+    "MenpoModel.C01.GenProps.funnel_masked_ok", "MenpoModel.C01.GenProps.funnel_image_ok",
+    "MenpoModel.C01.GenProps.funnel_boolean_ok",
 ]
 TOL = 1e-9
 TIE = 1e-6
 WMASK = ("warp_to_mask", "pwa_mask", "tps_mask")
+INT_DTYPES = ("uint8", "uint16", "int16", "int32")
+WARPS = ("warp_to_shape", "warp_to_mask", "warp_class", "pwa_shape", "pwa_mask", "tps_shape", "tps_mask")
 
 
 # ------------------------------------------------------------------------------------ contents
@@ -144,7 +224,7 @@ def aff_eval(spec, pts):
 
 def gen_content(rng, shape, dtype, force_aff=False):
     d = len(shape)
-    integer = dtype == "uint8"
+    integer = dtype in INT_DTYPES
     kind = "aff" if force_aff else rng.choice(["aff", "hash", "hash", "tab" if max(shape) <= 6 and d == 2 else "hash"])
     if kind == "aff":
         if integer:
@@ -191,8 +271,33 @@ def build_image(case):
         im = MaskedImage(chans.astype(case["dtype"]), mask=content_array(case["mask"], shape) != 0)
     else:
         im = Image(chans.astype(case["dtype"]))
+    lay = case.get("layout", "C")
+    if lay == "F":
+        # a pixel buffer that is not C-contiguous (assigned after construction, as user code does)
+        im.pixels = np.asfortranarray(im.pixels)
+    elif lay == "view":
+        big = np.zeros((im.pixels.shape[0],) + tuple(s + 3 for s in shape), dtype=im.pixels.dtype)
+        sl = (slice(None),) + tuple(slice(1, 1 + s) for s in shape)
+        big[sl] = im.pixels
+        im.pixels = big[sl]
+    life = case.get("life", "fresh")
+    if life == "relandmarked":
+        # a landmark manager with a history: groups that were set, overwritten and deleted before
+        for g in case["groups"]:
+            im.landmarks[g] = PointCloud(np.zeros((2, len(shape))))
+        im.landmarks["gone"] = PointCloud(np.ones((3, len(shape))))
+        del im.landmarks["gone"]
     for g, pts in case["groups"].items():
         im.landmarks[g] = make_shape(case.get("lmtype", {}).get(g, "PointCloud"), np.array(pts, dtype=float))
+    # previous lives of the image object itself
+    if life == "copy":
+        im = im.copy()
+    elif life == "from_vector" and case["cls"] == "img" and lay == "C":
+        im = im.from_vector(im.as_vector())
+    elif life == "as_masked" and case["cls"] == "masked" and lay == "C":
+        plain = Image(im.pixels)
+        plain.landmarks = im.landmarks
+        im = plain.as_masked(mask=BooleanImage(im.mask.pixels[0]))
     return im
 
 
@@ -235,9 +340,11 @@ def gen_landmarks(rng, shape, n, lo_frac=0.0, hi_frac=1.0):
 def base_case(rng, dim, shape=None, cls=None, lm_lo=0.0, lm_hi=1.0):
     if shape is None:
         shape = [rng.randint(3, 40) for _ in range(2)] if dim == 2 else [rng.randint(3, 9) for _ in range(3)]
+        if dim == 2 and rng.random() < 0.08:
+            shape[rng.randrange(2)] = 2          # the smallest extent on which every operation is defined
     if cls is None:
         cls = rng.choice(["img"] * 9 + ["masked"] * 7 + ["bool"] * 4)
-    dtype = "bool" if cls == "bool" else rng.choice(["float64"] * 3 + ["float32", "uint8"])
+    dtype = "bool" if cls == "bool" else rng.choice(["float64"] * 5 + ["float32"] * 2 + ["uint8"] * 2 + ["uint16", "int16", "int32"])
     nch = 1 if cls == "bool" else rng.randint(1, 4)
     if cls == "bool":
         chans = [gen_mask(rng, shape)]
@@ -250,7 +357,9 @@ def base_case(rng, dim, shape=None, cls=None, lm_lo=0.0, lm_hi=1.0):
         groups["g1"] = gen_landmarks(rng, shape, rng.randint(1, 3), lm_lo, lm_hi)
     return {"dim": dim, "cls": cls, "dtype": dtype, "shape": list(shape), "chans": chans,
             "mask": gen_mask(rng, shape) if cls == "masked" else None,
-            "order": rng.choice([1, 1, 1, 1, 0, 0, 3]), "groups": groups,
+            "order": rng.choice([1, 1, 1, 1, 1, 0, 0, 0, 3, 2, 4, 5]), "groups": groups,
+            "layout": rng.choice(["C"] * 6 + ["F", "view"]),
+            "life": rng.choice(["fresh"] * 5 + ["copy", "from_vector", "as_masked", "relandmarked"]),
             "lmtype": {g: rng.choice(["PointCloud", "PointCloud", "TriMesh", "PointUndirectedGraph"]) for g in groups}}
 
 
@@ -425,8 +534,176 @@ def gen_op2(rng, name, case):
                 op["tmask"] = ["const", 1.0]
         return op
     if name in ("pyramid", "gaussian_pyramid"):
-        return {"name": name, "n_levels": rng.randint(2, 3), "downscale": rng.choice([2, 2, 1.5, 3] if name == "pyramid" else [2])}
+        return {"name": name, "n_levels": rng.randint(2, 3), "downscale": rng.choice([2, 2, 1.5, 3] if name == "pyramid" else [2, 2, 1.5])}
     raise ValueError(name)
+
+
+CHAIN_LAST = ["rescale", "resize", "zoom", "rotate", "about", "mirror", "crop", "warp_to_shape"]
+
+
+def gen_chain(rng, case):
+    """a sequence of operations, each applied to the result of the previous one: one or two exact re-framings
+    (crop, mirror) and then any operation.  The image the last operation sees has had a previous life: its pixel
+    buffer comes out of a warp, its landmark manager was copied and moved in place.  The landmarks are drawn in the
+    frame of the last source and carried back exactly to the first image."""
+    shape = list(case["shape"])
+    pre, back = [], []
+    for _ in range(rng.randint(1, 2)):
+        if rng.random() < 0.6 and min(shape) >= 8:
+            m = rng.choice([0, 2])
+            mn = [dy(rng, 0, s - 7, m) for s in shape]
+            mx = [dy(rng, a + 6, s, m) for a, s in zip(mn, shape)]
+            pre.append({"name": "crop", "min": mn, "max": mx, "constrain": False, "arg": rng.choice(["ndarray", "list"])})
+            off = [math.floor(a) for a in mn]
+            back.append(("shift", off))
+            shape = [int(math.ceil(b) - math.floor(a)) for a, b in zip(mn, mx)]
+        else:
+            ax = rng.randint(0, 1)
+            pre.append({"name": "mirror", "axis": ax})
+            back.append(("flip", ax, shape[ax]))
+    tmp = dict(case, shape=shape, groups={"g0": [[1.0, 1.0]]})
+    last = gen_op2(rng, rng.choice(CHAIN_LAST), tmp)
+    groups = {}
+    for g in case["groups"]:
+        pts = gen_landmarks(rng, shape, len(case["groups"][g]))
+        for b in reversed(back):
+            if b[0] == "shift":
+                pts = [[x + o for x, o in zip(q, b[1])] for q in pts]
+            else:
+                pts = [[(b[2] - 1 - x) if a == b[1] else x for a, x in enumerate(q)] for q in pts]
+        groups[g] = pts
+    case["groups"] = groups
+    return {"name": "chain", "pre": pre, "last": last}
+
+
+def gen_constrain(rng, case):
+    """landmarks partly outside the image for Image.constrain_landmarks_to_bounds()"""
+    h, w = case["shape"]
+    for g in case["groups"]:
+        case["groups"][g] = [[dy(rng, -3, h + 2, 2), dy(rng, -3, w + 2, 2)] for _ in case["groups"][g]]
+    return {"name": "constrain_landmarks"}
+
+
+FAMILY = ["Rotation", "Similarity", "UniformScale", "NonUniformScale", "Translation", "Affine", "Homogeneous",
+          "AlignmentAffine", "AlignmentSimilarity", "AlignmentRotation", "AlignmentTranslation", "AlignmentUniformScale"]
+
+
+def gen_class_warp(rng, case):
+    """a direct warp_to_shape call whose transform argument is an object of one class of the homogeneous family
+    (every class moves the landmarks with its own `pseudoinverse`).  The landmarks are images of template points
+    that fall inside the source, so that registration can be checked at them."""
+    h, w = case["shape"]
+    cls = rng.choice(FAMILY)
+    th, tw = rng.randint(4, 12), rng.randint(4, 12)
+    t_small = rng.choice([F(1, 8), F(-1, 8), F(1, 4), F(-1, 4), F(1, 3), F(1, 2), F(-1, 2), F(1, 16)])
+    c, s_ = (1 - t_small ** 2) / (1 + t_small ** 2), 2 * t_small / (1 + t_small ** 2)
+    k = rng.choice([0.5, 0.75, 1.25, 1.5, 2.0, 2.5])
+    k2 = rng.choice([0.5, 0.75, 1.25, 1.5, 2.0, 3.0])
+    base = cls.replace("Alignment", "")
+    if base == "Rotation":
+        m = [[float(c), -float(s_)], [float(s_), float(c)]]
+        t = [0.0, 0.0]
+    elif base == "UniformScale":
+        m, t = [[k, 0.0], [0.0, k]], [0.0, 0.0]
+    elif base == "NonUniformScale":
+        m, t = [[k, 0.0], [0.0, k2]], [0.0, 0.0]
+    elif base == "Translation":
+        m, t = [[1.0, 0.0], [0.0, 1.0]], [_trans_offset(rng, h - th), _trans_offset(rng, w - tw)]
+    elif base == "Similarity":
+        m = [[k * float(c), -k * float(s_)], [k * float(s_), k * float(c)]]
+        t = [dy(rng, 0, max(1, h // 3)), dy(rng, 0, max(1, w // 3))]
+    else:
+        m = well_conditioned_2x2(rng)
+        tc = [(th - 1) / 2.0, (tw - 1) / 2.0]
+        sc = [(h - 1) / 2.0, (w - 1) / 2.0]
+        t = [math.floor(4 * (sc[0] - m[0][0] * tc[0] - m[0][1] * tc[1])) / 4.0,
+             math.floor(4 * (sc[1] - m[1][0] * tc[0] - m[1][1] * tc[1])) / 4.0]
+    op = {"name": "warp_class", "shape": [th, tw], "matrix": m, "translation": t, "tclass": cls, "mode": gen_mode(rng)}
+    if cls.startswith("Alignment"):
+        # source cloud in general position; the target is its image under the wanted map
+        while True:
+            src = [[dy(rng, -4, 4), dy(rng, -4, 4)] for _ in range(rng.randint(4, 6))]
+            xs, ys = [q[0] for q in src], [q[1] for q in src]
+            mx, my = sum(xs) / len(xs), sum(ys) / len(ys)
+            sxx = sum((x - mx) ** 2 for x in xs)
+            syy = sum((y - my) ** 2 for y in ys)
+            sxy = sum((x - mx) * (y - my) for x, y in zip(xs, ys))
+            if sxx * syy - sxy ** 2 > 4.0:
+                break
+        op["align_src"] = src
+        op["align_tgt"] = [[m[0][0] * x + m[0][1] * y + t[0], m[1][0] * x + m[1][1] * y + t[1]] for x, y in src]
+    return op
+
+
+def class_transform(op):
+    """the transform object of a warp_class case"""
+    import numpy as np
+    import menpo.transform as mt
+    from menpo.shape import PointCloud
+    cls = op["tclass"]
+    m, t = np.array(op["matrix"], dtype=float), np.array(op["translation"], dtype=float)
+    hm = np.eye(3)
+    hm[:2, :2] = m
+    hm[:2, 2] = t
+    if cls.startswith("Alignment"):
+        a, b = PointCloud(np.array(op["align_src"], dtype=float)), PointCloud(np.array(op["align_tgt"], dtype=float))
+        if cls == "AlignmentSimilarity":
+            return mt.AlignmentSimilarity(a, b, rotation=True, allow_mirror=False)
+        if cls == "AlignmentRotation":
+            return mt.AlignmentRotation(a, b, allow_mirror=False)
+        return getattr(mt, cls)(a, b)
+    if cls == "Rotation":
+        return mt.Rotation(m, skip_checks=True)
+    if cls == "UniformScale":
+        return mt.UniformScale(float(m[0, 0]), 2)
+    if cls == "NonUniformScale":
+        return mt.NonUniformScale(np.array([m[0, 0], m[1, 1]]))
+    if cls == "Translation":
+        return mt.Translation(t)
+    if cls == "Similarity":
+        return mt.Similarity(hm)
+    if cls == "Homogeneous":
+        return mt.Homogeneous(hm)
+    return mt.Affine(hm)
+
+
+def class_landmarks(rng, op, shape, n):
+    """landmarks = images of template points that land inside the source (one pixel of margin), as exact floats"""
+    import numpy as np
+    t = class_transform(op)
+    th, tw = op["shape"]
+    out = []
+    for _ in range(40):
+        q = np.array([[dy(rng, 0, th - 1, rng.choice([0, 1, 2])), dy(rng, 0, tw - 1, rng.choice([0, 1, 2]))]])
+        l = t.apply(q)[0]
+        if all(1.0 <= l[a] <= shape[a] - 2.0 for a in range(2)):
+            out.append([float(l[0]), float(l[1])])
+        if len(out) >= n:
+            break
+    return out
+
+
+_GK = {}
+
+
+def gaussian_half_weights(sigma):
+    """the kernel scipy.ndimage.gaussian_filter applies along one axis, measured as its impulse response; returned as
+    half weights w0 (centre) .. w_r if it is symmetric, supported on radius int(4 sigma + 0.5), of total weight 1
+    (the contract the Lean theorem takes) - else None"""
+    if sigma in _GK:
+        return _GK[sigma]
+    import numpy as np
+    from scipy.ndimage import gaussian_filter
+    r = int(4.0 * sigma + 0.5)
+    n = 2 * r + 9
+    d = np.zeros(n)
+    d[n // 2] = 1.0
+    k = gaussian_filter(d, sigma)
+    c = n // 2
+    ok = all(k[c - i] == k[c + i] for i in range(c + 1)) and all(k[c + i] == 0 for i in range(r + 1, c + 1)) \
+        and abs(float(k.sum()) - 1.0) <= 1e-12
+    _GK[sigma] = [float(k[c + i]) for i in range(r + 1)] if ok else None
+    return _GK[sigma]
 
 
 def grid_mesh(np, gh, gw, r0, r1, c0, c1):
@@ -570,7 +847,7 @@ def nonaffine_transform(op):
     return mt.ThinPlateSplines(PointCloud(pts), PointCloud(src))
 
 
-def call_op(im, case):
+def call_op(im, case, return_transform=True):
     """the real public API; returns (result, transform) — or a list of pyramid levels for the pyramids"""
     import numpy as np
     from menpo.image import BooleanImage
@@ -579,7 +856,7 @@ def call_op(im, case):
     n = op["name"]
     o = case["order"]
     d = case["dim"]
-    kw = {} if False else {"return_transform": True}
+    kw = {"return_transform": True} if return_transform else {}
     if n == "rescale":
         s = op["scale"]
         arg = s[0] if op["form"] == "scalar" else tuple(s) if op["form"] == "tuple" else np.array(s) if op["form"] == "ndarray" else list(s)
@@ -620,13 +897,15 @@ def call_op(im, case):
         return im.crop_to_landmarks_proportion(op["proportion"], group=op["group"], minimum=op["minimum"], **ckw)
     if n == "crop_to_true_mask":
         return im.crop_to_true_mask(boundary=op["boundary"], **ckw)
-    if n in ("warp_to_shape", "warp_to_mask", "pwa_shape", "pwa_mask", "tps_shape", "tps_mask"):
-        t = make_transform(op, d) if "matrix" in op else nonaffine_transform(op)
+    if n in WARPS:
+        t = class_transform(op) if n == "warp_class" else make_transform(op, d) if "matrix" in op else nonaffine_transform(op)
         mk = mode_kwargs(op["mode"])
         if case["cls"] == "bool":
             mk = {k: (bool(v) if k == "cval" else v) for k, v in mk.items()}
         else:
             mk["order"] = o
+        if op.get("batch"):
+            mk["batch_size"] = op["batch"]
         if n in WMASK:
             tm = BooleanImage(content_array(op["tmask"], tuple(op["shape"])) != 0)
             return im.warp_to_mask(tm, t, warp_landmarks=True, **dict(mk, **kw))
@@ -639,6 +918,9 @@ def call_op(im, case):
 
 
 def python_snippet(case):
+    if case["op"]["name"] in ("chain", "constrain_landmarks"):
+        return ("import sys; sys.path[:0] = ['/verif', '/repo']\nfrom harness import c01, common\ncase = %s\n"
+                "# re-run through the harness: ./check C01 --replay <this file>" % json.dumps(case))
     return ("import sys; sys.path[:0] = ['/verif', '/repo']\nfrom harness import c01\ncase = %s\nim = c01.build_image(case)\n"
             "print(c01.call_op(im, case))" % json.dumps(case))
 
@@ -658,9 +940,12 @@ def op_model_tokens(case, extra):
     d = case["dim"]
     if n == "rescale":
         return "rescale %s %s" % (" ".join(fq(s) for s in op["scale"]), op["round"])
-    if n in ("rescale_to_diagonal", "rescale_to_pointcloud", "rescale_landmarks_to_diagonal_range"):
-        s = extra["scale"]
-        return "rescale %s %s %s" % (fq(s), fq(s), op["round"])
+    if n == "rescale_to_diagonal":
+        return "rescalediag %s %s %s" % (fq(op["diagonal"]), fq(extra["dg"]), op["round"])
+    if n == "rescale_to_pointcloud":
+        return "rescalepc %s %s %s" % (fq(extra["ns"]), fq(extra["nt"]), op["round"])
+    if n == "rescale_landmarks_to_diagonal_range":
+        return "rescalerange %s %s %s" % (fq(op["diagonal_range"]), fq(extra["rg"]), op["round"])
     if n == "resize":
         return "resize " + " ".join(str(x) for x in op["shape"])
     if n == "zoom":
@@ -684,8 +969,8 @@ def op_model_tokens(case, extra):
         return "cropprop %d %s %s %d %d" % (len(pts), " ".join(fq(x) for p in pts for x in p), fq(op["proportion"]),
                                             int(op["minimum"]), 1 if op["constrain"] in (True, None) else 0)
     if n == "crop_to_true_mask":
-        (r0, c0), (r1, c1) = case["mask_bbox"]
-        return "croppts 2 %d %d %d %d %s 1" % (r0, c0, r1, c1, fq(op["boundary"]))
+        # the model computes the True indices from the mask content of the request
+        return "cropmask %s 1" % fq(op["boundary"])
     if n in ("warp_to_shape", "warp_to_mask"):
         m, t = op["matrix"], op["translation"]
         if d == 2:
@@ -695,6 +980,10 @@ def op_model_tokens(case, extra):
         if n == "warp_to_mask":
             return "warpmask %d %d %s %s %s" % (op["shape"][0], op["shape"][1], content_tokens(op["tmask"]), T, mode_tokens(op["mode"]))
         return "warp %s %s %s" % (" ".join(str(x) for x in op["shape"]), T, mode_tokens(op["mode"]))
+    if n == "warp_class":
+        hm = extra["h_matrix"]
+        T = " ".join(fq(x) for x in [hm[0][0], hm[0][1], hm[0][2], hm[1][0], hm[1][1], hm[1][2]])
+        return "warpc %s %d %d %s %s" % (extra["provider"], op["shape"][0], op["shape"][1], T, mode_tokens(op["mode"]))
     if n == "pyramid":
         return None
     raise ValueError(n)
@@ -717,7 +1006,7 @@ def request_line(case, optok, lms, pix):
 # ------------------------------------------------------------------------------------ the run
 
 def dtype_tol(dtype, scale, resamplings=1):
-    if dtype == "uint8":
+    if dtype in INT_DTYPES:
         return 0.5 * resamplings + 1e-6
     if dtype == "float32":
         return 1e-4 * (1.0 + scale)
@@ -810,10 +1099,13 @@ class Run:
         n = case["op"]["name"]
         self.ctx.fail("C01/%s.%s" % (n, clause), pattern, "%s on %s %s %s: %s" % (
             n, case["cls"], case["dtype"], "x".join(str(s) for s in case["shape"]), text),
-            {"case": case, "python": python_snippet(case)})
+            {"case": case.get("origin", case), "python": python_snippet(case.get("origin", case))})
 
-    def oracle(self, case, src_pixels, src_mask, res, tr, lms_src, level=None):
-        """the property on the real objects.  src_pixels / src_mask: copies taken before the call."""
+    def oracle(self, case, src_pixels, src_mask, res, tr, lms_src, level=None, src_im=None):
+        """the property on the real objects.  src_pixels / src_mask: copies taken before the call; src_im: the source
+        image object (used as the sampler of the requested order for orders above 1: spline interpolation is
+        library code, the property is that the result holds the source *sampled with that order* at the returned
+        transform of each pixel, and at the original landmark under each returned landmark)."""
         import numpy as np
         from menpo.image import Image, MaskedImage, BooleanImage
         from menpo.shape import PointCloud
@@ -869,6 +1161,7 @@ class Run:
         # warp_to_mask samples only the True pixels of the template (the others stay blank, as documented)
         tmask = content_array(op["tmask"], tuple(op["shape"])) != 0 if n in WMASK else None
         # O2 registration at the landmarks
+        spl_at_L = None
         for k in range(len(L)):
             lp, l = L2[k], L[k]
             if np.any(lp < -1e-9) or np.any(lp > np.array(rshape) - 1 + 1e-9):
@@ -881,6 +1174,20 @@ class Run:
                     continue
             lp = np.clip(lp, 0, np.array(rshape) - 1.0)
             on_grid = bool(np.all(np.abs(lp - np.round(lp)) < 1e-9))
+            if (n.startswith("crop") or n == "mirror") and src_im is not None and case["cls"] != "bool" \
+                    and np.all(l >= 0) and np.all(l <= np.array(shape) - 1.0):
+                # exact re-framings: arbitrary content, sub-pixel landmarks (crop_family_exact_registration,
+                # mirror_exact_registration_linear): the result read bilinearly at the returned landmark is the source
+                # read bilinearly at the original landmark, on every channel
+                gotx = res.sample(PointCloud(lp[None, :]), order=1, mode="nearest")[:, 0].astype(float)
+                wantx = self.sample_src(src_im, l[None, :], 1, ["near"])[:, 0].astype(float)
+                if not np.all(np.abs(gotx - wantx) <= dtype_tol(case["dtype"], float(np.abs(wantx).max()), 2)):
+                    self.fail(case, "pixels", "sample(landmark')!=original.sample(landmark)",
+                              "the result sampled at the returned landmark %r gives %r, the source sampled at the original "
+                              "landmark %r gives %r" % (lp.tolist(), gotx.tolist(), l.tolist(), wantx.tolist()))
+                    return checked
+                if not ((eo == 1 and aff) or on_grid):
+                    checked += 1          # (otherwise counted by the clause below, which also looks at the mask)
             if eo == 1 and aff:
                 if tr is not None:
                     i0 = np.floor(lp + 1e-12).astype(int)
@@ -899,25 +1206,63 @@ class Run:
                     wts = np.ones(len(corners))
                     for a in range(d):
                         wts = wts * np.where(corners[:, a] == i0[a], 1 - fr[a], fr[a])
-                    nonlin = float(np.abs(wts.dot(csrc) - tr.apply(lp[None, :])[0]).max())
+                    # the transform interpolated bilinearly over the cell (interpT of the model): the result read at
+                    # the returned landmark is *exactly* the content there (warpF_registration_exact2), and it differs
+                    # from the content at the original landmark by at most sum_k |slope_k| |interp_k - l_k|
+                    # (warpF_registration_bound2) - for an affine transform that is zero
+                    interp = wts.dot(csrc)
+                    dev = np.abs(interp - l)
+                    nonlin = float(dev.max())
                     if nonaff and nonlin > 0.25:
                         continue
+                    if not nonaff and nonlin > 1e-9 * (1 + scale):
+                        # an affine transform is its own interpolation: this is O1 again, seen from the pixels
+                        self.fail(case, "landmarks", "transform(landmarks')!=landmarks",
+                                  "the returned transform, interpolated over the cell of the returned landmark %r, gives %r "
+                                  "instead of the original landmark %r" % (lp.tolist(), interp.tolist(), l.tolist()))
+                        return checked
                 else:
-                    nonlin = 0.0
+                    interp, dev = None, np.zeros(d)
                 got = res.sample(PointCloud(lp[None, :]), order=1, mode="nearest")[:, 0].astype(float)
                 for c in aff:
                     spec = case["chans"][c]
                     want = float(aff_eval(spec, l[None, :])[0])
-                    lip = sum(abs(float(x)) for x in spec[2:])
-                    tol = dtype_tol(case["dtype"], abs(want), 2 * (level or 1)) + lip * (nonlin + (1e-6 if n[:3] == "tps" else 0.0))
+                    slopes = np.array([abs(float(x)) for x in spec[2:]])
+                    tol = dtype_tol(case["dtype"], abs(want), 2 * (level or 1)) + float(slopes.dot(dev))
                     if n == "gaussian_pyramid":
                         tol += 1e-7
+                    if interp is not None:
+                        exact = float(aff_eval(spec, interp[None, :])[0])
+                        if not abs(got[c] - exact) <= dtype_tol(case["dtype"], abs(exact), 2 * (level or 1)):
+                            self.fail(case, "pixels", "sample(landmark')!=original(interpolated-transform(landmark'))",
+                                      "channel %d (= %s) sampled at the returned landmark %r gives %.9g; the returned transform "
+                                      "interpolated over that cell is %r where the original holds %.9g" % (
+                                          c, spec, lp.tolist(), got[c], interp.tolist(), exact))
+                            return checked
                     if not abs(got[c] - want) <= tol:
                         self.fail(case, "pixels", "sample(landmark')!=original(landmark)",
                                   "%schannel %d (= %s) sampled at the returned landmark %r gives %.9g, the original image has %.9g "
                                   "at the original landmark %r" % ("level %d: " % level if level else "", c, spec, lp.tolist(),
                                                                    got[c], want, l.tolist()))
                         return checked
+                checked += 1
+            elif eo >= 2 and on_grid and tr is not None and src_im is not None:
+                # any order: the pixel under a returned landmark on the grid is the source sampled with that order
+                # at the original landmark (exec_registration_grid_any_order)
+                p = np.round(lp).astype(int)
+                if tmask is not None and not tmask[tuple(p)]:
+                    continue
+                if not inside_src(l, shape, mode, is_exact(case))[0]:
+                    continue
+                if spl_at_L is None:
+                    spl_at_L = self.sample_src(src_im, L, eo, mode).astype(float)     # one prefilter for all landmarks
+                want = spl_at_L[:, k]
+                got = rpix[(slice(None),) + tuple(p)]
+                if not np.all(np.abs(got - want) <= dtype_tol(case["dtype"], float(np.abs(want).max()), 2)):
+                    self.fail(case, "pixels", "pixel(landmark')!=original.sample(landmark,order)",
+                              "order %d: result pixel %r under the returned landmark holds %r, the source sampled with the same "
+                              "order at the original landmark %r gives %r" % (eo, p.tolist(), got.tolist(), l.tolist(), want.tolist()))
+                    return checked
                 checked += 1
             elif eo == 0 and on_grid and tr is not None:
                 p = np.round(lp).astype(int)
@@ -949,6 +1294,7 @@ class Run:
             q = tr.apply(pix.astype(float))
             ins = inside_src(q, shape, mode, is_exact(case))
             tie = near_tie(q)
+            spl_at_q = None
             if (n in WMASK):
                 if case["cls"] != "bool":
                     if not np.array_equal(res.mask.pixels[0], tmask):
@@ -968,6 +1314,19 @@ class Run:
                                       "channel %d (= %s) of result pixel %r is %.9g; the returned transform maps the pixel to %r "
                                       "where the original holds %.9g" % (c, spec, [int(x) for x in p], got[c], q[k].tolist(), want))
                             return checked
+                elif eo >= 2:
+                    if src_im is None:
+                        continue
+                    if spl_at_q is None:
+                        spl_at_q = self.sample_src(src_im, q, eo, mode).astype(float)
+                    want = spl_at_q[:, k]
+                    # integer dtypes: one level (the stored value is rounded; a value on a rounding tie may fall either
+                    # way when the sampling point differs in the last bit)
+                    if not np.all(np.abs(got - want) <= dtype_tol(case["dtype"], float(np.abs(want).max()), 2)):
+                        self.fail(case, "pixels", "pixel!=original.sample(transform(index),order)",
+                                  "order %d: result pixel %r holds %r; the returned transform maps it to %r where the source "
+                                  "sampled with the same order gives %r" % (eo, [int(x) for x in p], got.tolist(), q[k].tolist(), want.tolist()))
+                        return checked
                 elif eo == 0 and not tie[k]:
                     want = src_pixels[(slice(None),) + idx]
                     if not np.array_equal(got, want):
@@ -985,9 +1344,39 @@ class Run:
                         return checked
         return checked
 
+    @staticmethod
+    def sample_src(src_im, pts, order, mode):
+        """the source sampled with the requested order and the boundary mode of the operation (Image.sample: the
+        spline orders are library code)"""
+        from menpo.image import Image
+        kw = {"mode": "nearest"} if mode[0] == "near" else {"mode": "constant", "cval": mode[1]}
+        return Image.sample(src_im, pts, order=order, **kw)
+
+    def interpolating(self, case, im, order):
+        """contract of the spline orders (checked numerically on every case that uses them): at a grid point the
+        sampler returns that pixel"""
+        import numpy as np
+        import itertools
+        shape = im.shape
+        pts = np.array([[self.ctx.rng.randint(0, s - 1) for s in shape] for _ in range(4)], dtype=float)
+        got = self.sample_src(im, pts, order, ["near"]).astype(float)
+        want = np.stack([im.pixels[(slice(None),) + tuple(int(x) for x in q)] for q in pts], axis=1).astype(float)
+        self.ctx.count("contract-checked")
+        if not np.all(np.abs(got - want) <= dtype_tol(case["dtype"], float(np.abs(want).max()))):
+            self.mismatch(case, "contract", "order %d sampling at grid points %r gives %r, the pixels are %r" % (
+                order, pts.tolist(), got.tolist(), want.tolist()))
+
     # ---- one case ----------------------------------------------------------------------------------
+    def contract(self, case, query, value, what):
+        """a contract parameter (a square root the code takes): its square is compared with the exact quantity the
+        model computes from the same inputs"""
+        cid = "q%d" % len(self.lines)
+        self.lines.append(cid + " k2 " + query)
+        self.pending[cid] = (case, None, {"contract": what, "value": value})
+
     def do_case(self, case):
         import numpy as np
+        from menpo.shape import PointCloud
         ctx = self.ctx
         op = case["op"]
         n = op["name"]
@@ -996,6 +1385,10 @@ class Run:
             im = build_image(case)
         except Exception as e:          # harness error, not a verdict
             raise common.Infra("cannot build the test image: %r %r" % (e, case))
+        if n == "chain":
+            return self.do_chain(case, im)
+        if n == "constrain_landmarks":
+            return self.do_constrain(case, im)
         src_pixels = im.pixels.astype(float).copy()
         src_mask = im.mask.pixels[0].copy() if case["cls"] == "masked" else None
         lms = all_points(case)
@@ -1017,11 +1410,32 @@ class Run:
             return
         res, tr = out
         nfail = len(ctx.failures) + len(ctx.known_seen)
-        checked = self.oracle(case, src_pixels, src_mask, res, tr, lms)
+        checked = self.oracle(case, src_pixels, src_mask, res, tr, lms, src_im=im)
+        if eff_order(case) >= 2 and self.model:
+            self.interpolating(case, im, eff_order(case))
+            self.interpolating(case, res, eff_order(case))
         if len(ctx.failures) + len(ctx.known_seen) != nfail:
             # the oracle already decided this case on the real code; nothing to compare with the model
             ctx.case((n, json.dumps(case, sort_keys=True)), nontrivial=True)
             return
+        if ctx.rng.random() < 0.08:
+            # the same call without return_transform on a rebuilt image: the very same image must come back
+            try:
+                res2 = call_op(build_image(case), case, return_transform=False)
+            except Exception as e:
+                res2 = e
+            same = (not isinstance(res2, (tuple, Exception)) and type(res2) is type(res)
+                    and np.array_equal(res2.pixels, res.pixels, equal_nan=True)
+                    and all(g in res2.landmarks and np.array_equal(res2.landmarks[g].points, res.landmarks[g].points)
+                            for g in case["groups"])
+                    and (case["cls"] != "masked" or np.array_equal(res2.mask.pixels, res.mask.pixels)))
+            ctx.count("twin-call-without-return_transform")
+            if not same:
+                self.fail(case, "transform", "return_transform-changes-result",
+                          "the call without return_transform does not give the image the call with return_transform=True gave"
+                          " (%s)" % (type(res2).__name__,))
+                ctx.case((n, json.dumps(case, sort_keys=True)), nontrivial=True)
+                return
         ident = False
         try:
             probe = np.array([[1.0] * d, [2.0, 3.0, 5.0][:d]])
@@ -1038,17 +1452,26 @@ class Run:
         # ---- model request
         extra = {}
         if n == "rescale_to_diagonal":
-            extra["scale"] = op["diagonal"] / im.diagonal()
+            # contract parameter: the square root the code takes; checked against the exact h² + w² of the model
+            extra["dg"] = float(im.diagonal())
+            self.contract(case, "diag %d %d" % tuple(case["shape"]), extra["dg"], "Image.diagonal()")
         elif n == "rescale_to_pointcloud":
-            a = np.array(case["groups"][op["group"]], dtype=float)
-            b = np.array(op["target"], dtype=float)
-            extra["scale"] = float(np.linalg.norm(b - b.mean(axis=0)) / np.linalg.norm(a - a.mean(axis=0)))
+            a, b = case["groups"][op["group"]], op["target"]
+            extra["ns"] = float(PointCloud(np.array(a, dtype=float)).norm())
+            extra["nt"] = float(PointCloud(np.array(b, dtype=float)).norm())
+            self.contract(case, "ss %d %s" % (len(a), " ".join(fq(x) for q in a for x in q)), extra["ns"], "PointCloud.norm() of the group")
+            self.contract(case, "ss %d %s" % (len(b), " ".join(fq(x) for q in b for x in q)), extra["nt"], "PointCloud.norm() of the target")
         elif n == "rescale_landmarks_to_diagonal_range":
             a = np.array(case["groups"][op["group"]], dtype=float)
-            rx, ry = a.max(axis=0) - a.min(axis=0)
-            extra["scale"] = float(op["diagonal_range"] / np.sqrt(rx ** 2 + ry ** 2))
+            rx, ry = PointCloud(a).range()
+            extra["rg"] = float(np.sqrt(rx ** 2 + ry ** 2))
+            self.contract(case, "range %d %s" % (len(a), " ".join(fq(x) for q in a.tolist() for x in q)), extra["rg"], "sqrt of the squared range")
         elif n == "about":
             extra["h_matrix"] = about_transform(op).h_matrix.tolist()
+        elif n == "warp_class":
+            extra["h_matrix"] = np.asarray(tr.h_matrix).tolist()
+            extra["provider"] = extract_c01.provider_of(tr)
+            ctx.count("transform-class:" + op["tclass"])
         pix = pick_pixels(ctx.rng, tuple(res.shape), 10 if d == 2 else 6)
         if n[:3] in ("pwa", "tps"):
             return self.ask_nonaffine(case, res, tr, pix)
@@ -1061,6 +1484,130 @@ class Run:
         if hasattr(tr, "h_matrix"):
             obs["T"] = np.asarray(tr.h_matrix)[:d, :].tolist()
         self.pending[cid] = (case, pix, obs)
+
+    def do_constrain(self, case, im):
+        """Image.constrain_landmarks_to_bounds(): landmarks inside keep their place (pixels and mask are not touched,
+        so their registration is unchanged), landmarks outside are brought to the border"""
+        import numpy as np
+        import warnings
+        ctx = self.ctx
+        n = "constrain_landmarks"
+        ctx.count("op:" + n)
+        before_px = im.pixels.copy()
+        before_mask = im.mask.pixels.copy() if case["cls"] == "masked" else None
+        L = np.array(all_points(case), dtype=float)
+        try:
+            with warnings.catch_warnings():
+                warnings.simplefilter("ignore")
+                im.constrain_landmarks_to_bounds()
+        except Exception as e:
+            ctx.case(("raises", n, json.dumps(case, sort_keys=True)), nontrivial=True)
+            self.fail(case, "raises", type(e).__name__, "the call raised %s: %s" % (type(e).__name__, str(e)[:200]))
+            return
+        L2 = np.vstack([im.landmarks[g].points for g in sorted(case["groups"])])
+        top = np.array(case["shape"], dtype=float) - 1
+        inside = np.all((L >= 0) & (L <= top), axis=1)
+        ok = True
+        if not np.array_equal(L2[inside], L[inside]):
+            ok = False
+            self.fail(case, "landmarks", "inside-landmark-moved", "a landmark inside the image was moved: %r -> %r" % (
+                L[inside].tolist(), L2[inside].tolist()))
+        elif np.any(L2 < 0) or np.any(L2 > top):
+            ok = False
+            self.fail(case, "landmarks", "still-outside", "landmarks %r are outside the image after the call" % L2.tolist())
+        elif not np.array_equal(im.pixels, before_px) or (before_mask is not None and not np.array_equal(im.mask.pixels, before_mask)):
+            ok = False
+            self.fail(case, "pixels", "pixels-changed", "constrain_landmarks_to_bounds changed pixels or mask")
+        ctx.case((n, json.dumps(case, sort_keys=True)), nontrivial=bool(np.any(~inside)),
+                 sample={"op": case["op"], "shape": case["shape"], "landmarks_outside": int(np.sum(~inside))})
+        if not ok or not self.model:
+            return
+        line = request_line(case, "constrainlm", all_points(case), [])
+        cid = "q%d" % len(self.lines)
+        self.lines.append(cid + " " + line)
+        self.pending[cid] = (case, [], {"shape": list(case["shape"]), "T": None, "lms": L2.tolist(), "pix": [], "mpix": None})
+
+    def do_chain(self, case, im):
+        """a sequence of operations: every step is decided by the oracle against the image it was applied to (whose
+        content is known: an exact re-framing of the first image), the composition of the returned transforms must
+        map the final landmarks onto the first ones, and the model runs the whole sequence on the first image"""
+        import numpy as np
+        ctx = self.ctx
+        op = case["op"]
+        steps = list(op["pre"]) + [op["last"]]
+        ctx.count("op:chain")
+        ctx.count("class:%s/%s" % (case["cls"], case["dtype"]))
+        ctx.count("dim:2")
+        specs = [list(c) if c[0] == "aff" else ["raw"] for c in case["chans"]]
+        cur, trs, toks = im, [], []
+        L0 = np.array(all_points(case), dtype=float)
+        checked_total = 0
+        nfail = len(ctx.failures) + len(ctx.known_seen)
+        sub = None
+        for k, st in enumerate(steps):
+            last = k == len(steps) - 1
+            sub = dict(case, op=st, shape=list(cur.shape), chans=[list(c) for c in specs], origin=case,
+                       groups={g: cur.landmarks[g].points.tolist() for g in sorted(case["groups"])})
+            ctx.count("chain-step:" + st["name"])
+            src_pixels = cur.pixels.astype(float).copy()
+            src_mask = cur.mask.pixels[0].copy() if case["cls"] == "masked" else None
+            try:
+                out = call_op(cur, sub)
+            except Exception as e:
+                ctx.case(("raises", "chain", json.dumps(case, sort_keys=True)), nontrivial=True)
+                self.fail(sub, "raises", type(e).__name__, "step %d of a sequence raised %s: %s" % (k, type(e).__name__, str(e)[:200]))
+                return
+            res, tr = out
+            checked_total += self.oracle(sub, src_pixels, src_mask, res, tr, all_points(sub), src_im=cur)
+            if len(ctx.failures) + len(ctx.known_seen) != nfail:
+                ctx.case(("chain", json.dumps(case, sort_keys=True)), nontrivial=True)
+                return
+            extra = {"h_matrix": about_transform(st).h_matrix.tolist()} if st["name"] == "about" else {}
+            toks.append(op_model_tokens(sub, extra))
+            trs.append(tr)
+            if not last:
+                # the content of the result, exactly: crop shifts, mirror flips
+                if st["name"] == "crop":
+                    off = np.asarray(tr.h_matrix)[:2, 2]
+                    for c in specs:
+                        if c[0] == "aff":
+                            c[1] = float(c[1]) + float(c[2]) * float(off[0]) + float(c[3]) * float(off[1])
+                else:
+                    ax = st["axis"]
+                    for c in specs:
+                        if c[0] == "aff":
+                            c[1] = float(c[1]) + float(c[2 + ax]) * (cur.shape[ax] - 1)
+                            c[2 + ax] = -float(c[2 + ax])
+                prev, cur = cur, res
+        # the composition of the returned transforms maps the final landmarks onto the first ones
+        Lf = np.vstack([res.landmarks[g].points for g in sorted(case["groups"])])
+        back = Lf
+        for t in reversed(trs):
+            back = t.apply(back)
+        sc = float(max(np.abs(L0).max(), max(case["shape"]), 1.0))
+        if not np.abs(back - L0).max() <= TOL * (1 + sc) * len(trs):
+            self.fail(sub, "landmarks", "composed-transforms(landmarks')!=landmarks",
+                      "after %s the landmarks %r are mapped by the composition of the returned transforms to %r, they were %r" % (
+                          "+".join(s_["name"] for s_ in steps), Lf.tolist(), back.tolist(), L0.tolist()))
+            ctx.case(("chain", json.dumps(case, sort_keys=True)), nontrivial=True)
+            return
+        ctx.case(("chain", json.dumps(case, sort_keys=True)), nontrivial=checked_total > 0 or self.pix_checked > 0,
+                 sample={"op": op, "class": case["cls"], "dtype": case["dtype"], "shape": case["shape"],
+                         "landmarks_checked": checked_total})
+        ctx.count("landmarks-registered", checked_total)
+        if not self.model:
+            return
+        pix = pick_pixels(ctx.rng, tuple(res.shape), 8)
+        line = request_line(case, "chain %d %s" % (len(toks), " ".join(toks)), all_points(case), pix)
+        cid = "q%d" % len(self.lines)
+        self.lines.append(cid + " " + line)
+        H = np.eye(3)
+        for t in trs:
+            H = H.dot(np.asarray(t.h_matrix))
+        obs = {"shape": list(res.shape), "T": H[:2, :].tolist(), "lms": Lf.tolist(),
+               "pix": [res.pixels[(slice(None),) + tuple(q)].astype(float).tolist() for q in pix],
+               "mpix": [bool(res.mask.pixels[(0,) + tuple(q)]) for q in pix] if case["cls"] == "masked" else None}
+        self.pending[cid] = (sub, pix, obs)
 
     def ask_nonaffine(self, case, res, tr, pix):
         """non-affine warps: the model is asked what the funnel stores at the points the transform object produced"""
@@ -1081,6 +1628,44 @@ class Run:
         obs = {"pix": [res.pixels[(slice(None),) + tuple(p)].astype(float).tolist() for p in pix], "pts": pts.tolist(),
                "keep": [bool(tmask[tuple(p)]) if tmask is not None else True for p in pix]}
         self.pending[cid] = (case, pix, obs)
+        if o != 1:
+            return
+        # registration at the returned landmarks under the non-affine transform: the model warps the content with the
+        # transform tabulated on the cell of the landmark and reads the result back at the landmark (warpF2 + sample),
+        # and answers the interpolated transform (interpT)
+        import itertools
+        from menpo.shape import PointCloud
+        rshape = tuple(res.shape)
+        L2 = np.vstack([res.landmarks[g].points for g in sorted(case["groups"])])
+        asked = 0
+        for lp in L2:
+            if asked >= 3 or np.any(lp < 0) or np.any(lp > np.array(rshape) - 1):
+                continue
+            i0 = np.floor(lp + 1e-12).astype(int)
+            fr = lp - i0
+            if np.any((fr > 1e-12) & (fr < 1e-6)) or np.any(fr > 1 - 1e-6):
+                continue                        # within rounding of a grid line: the cell is not determined
+            axes = [[i0[a]] if fr[a] <= 1e-12 else [i0[a], i0[a] + 1] for a in range(2)]
+            corners = np.array(list(itertools.product(*axes)), dtype=float)
+            if np.any(corners > np.array(rshape) - 1):
+                continue
+            if tmask is not None and not all(tmask[tuple(int(x) for x in c)] for c in corners):
+                continue
+            csrc = tr.apply(corners)
+            if not np.all(inside_src(csrc, case["shape"], mode, False)):
+                continue
+            lpq = np.where(fr <= 1e-12, i0.astype(float), lp)
+            cell = " ".join("%d %d %s %s" % (int(c[0]), int(c[1]), fq(float(v[0])), fq(float(v[1]))) for c, v in zip(corners, csrc))
+            parts = ["w2", "%d %d" % tuple(case["shape"]), str(len(case["chans"]))] + [content_tokens(c) for c in case["chans"]]
+            parts += [mode_tokens(mode), "%d %d" % rshape, fq(float(lpq[0])), fq(float(lpq[1])), "CELL %d %s" % (len(corners), cell)]
+            cid = "q%d" % len(self.lines)
+            self.lines.append(cid + " " + " ".join(parts))
+            got = res.sample(PointCloud(lpq[None, :]), order=1, mode="nearest")[:, 0].astype(float).tolist()
+            wts = np.ones(len(corners))
+            for a in range(2):
+                wts = wts * np.where(corners[:, a] == i0[a], 1 - (lpq[a] - i0[a]), lpq[a] - i0[a])
+            self.pending[cid] = (case, None, {"w2": got, "interp": wts.dot(csrc).tolist(), "at": lpq.tolist()})
+            asked += 1
 
     def do_pyramid(self, case, im, src_pixels, src_mask, levels, lms):
         import numpy as np
@@ -1104,16 +1689,38 @@ class Run:
         ctx.count("landmarks-registered", checked)
         if not self.model:
             return
+        wtok = None
+        if n == "gaussian_pyramid":
+            half = gaussian_half_weights(op["downscale"] / 3.0)
+            ctx.count("contract-checked")
+            if half is None:
+                self.mismatch(case, "contract", "scipy's gaussian kernel for sigma=%r is not a symmetric kernel of total weight 1 "
+                              "and radius int(4 sigma + 0.5)" % (op["downscale"] / 3.0))
+                return
+            wtok = "%d %s" % (len(half), " ".join(fq(x) for x in half))
         for lv, res in enumerate(levels):
             if lv == 0:
                 continue
-            pix = pick_pixels(ctx.rng, tuple(res.shape), 4) if n == "pyramid" else []
-            line = request_line(case, "pyr %d %s" % (lv, fq(op["downscale"])), lms, pix)
+            if n == "pyramid":
+                pix = pick_pixels(ctx.rng, tuple(res.shape), 4)
+                optok = "pyr %d %s" % (lv, fq(op["downscale"]))
+            else:
+                # every pixel of a level reads (2r+1)^2 source pixels per level below it: a few pixels, incl. a corner
+                # (the reflect rule of the blur) and the interior
+                pix = pick_pixels(ctx.rng, tuple(res.shape), 2)[2:5] if lv == 1 else pick_pixels(ctx.rng, tuple(res.shape), 1)[4:5]
+                self.gp_asked = getattr(self, "gp_asked", 0) + 1
+                if self.gp_asked > 36:
+                    pix = []                  # landmarks and shape of every case; pixels of the first 36 level queries
+                if lv > 1 and len(case["chans"]) > 1:
+                    # a level-2 pixel reads (4 (2r+1)^2)^2 source pixels: first channel only
+                    case = dict(case, chans=case["chans"][:1])
+                optok = "gpyr %d %s %s" % (lv, fq(op["downscale"]), wtok)
+            line = request_line(case, optok, lms, pix)
             cid = "q%d" % len(self.lines)
             self.lines.append(cid + " " + line)
             obs = {"shape": list(res.shape), "T": None,
                    "lms": np.vstack([res.landmarks[g].points for g in sorted(case["groups"])]).tolist(),
-                   "pix": [res.pixels[(slice(None),) + tuple(p)].astype(float).tolist() for p in pix],
+                   "pix": [res.pixels[(slice(None),) + tuple(p)].astype(float).tolist()[:len(case["chans"])] for p in pix],
                    "mpix": [bool(res.mask.pixels[(0,) + tuple(p)]) for p in pix] if case["cls"] == "masked" else None,
                    "level": lv}
             self.pending[cid] = (case, pix, obs)
@@ -1127,7 +1734,8 @@ class Run:
             self.compare(case, pix, obs, replies[cid])
 
     def mismatch(self, case, what, text):
-        self.ctx.mismatch(case["op"]["name"], "%s: %s" % (what, text), {"case": case, "python": python_snippet(case)})
+        self.ctx.mismatch(case["op"]["name"], "%s: %s" % (what, text),
+                          {"case": case.get("origin", case), "python": python_snippet(case.get("origin", case))})
 
     def compare(self, case, pix, obs, reply):
         import numpy as np
@@ -1135,6 +1743,25 @@ class Run:
         n = op["name"]
         d = case["dim"]
         toks = reply.split()
+        if "w2" in obs:
+            self.ctx.count("nonaffine-landmarks-compared")
+            if not toks or toks[0] != "ok":
+                self.mismatch(case, "verdict", "model says %r for the registration query at %r" % (reply, obs["at"]))
+                return
+            vals = [float(F(t)) for t in toks[1:]]
+            nch = len(case["chans"])
+            if not self.pix_close(case, 1, obs["w2"], vals[:nch], 2):
+                self.mismatch(case, "registration", "result sampled at the returned landmark %r: implementation %r, model %r" % (
+                    obs["at"], obs["w2"], vals[:nch]))
+            elif not all(close(a, b, max(case["shape"]), TOL) for a, b in zip(obs["interp"], vals[nch:])):
+                self.mismatch(case, "registration", "transform interpolated at %r: harness %r, model %r" % (obs["at"], obs["interp"], vals[nch:]))
+            return
+        if "contract" in obs:
+            self.ctx.count("contract-checked")
+            exact = float(F(toks[1])) if len(toks) == 2 and toks[0] == "ok" else None
+            if exact is None or not abs(obs["value"] ** 2 - exact) <= 1e-12 * (1 + exact):
+                self.mismatch(case, "contract", "%s = %r, its square should be %r" % (obs["contract"], obs["value"], exact))
+            return
         if not toks or toks[0] != "ok":
             # the implementation produced a result where the model refuses: outside the modelled domain or a tie
             self.mismatch(case, "verdict", "model says %r, implementation returned an image of shape %r" % (reply, obs.get("shape")))
@@ -1228,7 +1855,7 @@ class Run:
     def pix_close(case, eo, iv, mv, resamplings=1):
         if case["cls"] == "bool":
             return [bool(x) for x in iv] == [x != 0 for x in mv]
-        if case["dtype"] == "uint8":
+        if case["dtype"] in INT_DTYPES:
             tol = 0.0 if eo == 0 else 0.5 * resamplings + 1e-6
             return all(abs(a - b) <= tol for a, b in zip(iv, mv))
         sc = max([abs(x) for x in mv] + [1.0])
@@ -1239,7 +1866,8 @@ class Run:
 OPS2 = [("rescale", 40), ("rescale_to_diagonal", 10), ("rescale_to_pointcloud", 10), ("rescale_landmarks_to_diagonal_range", 10),
         ("resize", 20), ("zoom", 20), ("rotate", 40), ("about", 40), ("mirror", 16), ("crop", 30), ("crop_to_pointcloud", 12),
         ("crop_to_landmarks", 12), ("crop_to_pointcloud_proportion", 8), ("crop_to_landmarks_proportion", 8),
-        ("crop_to_true_mask", 10), ("warp_to_shape", 40), ("warp_to_mask", 16), ("pyramid", 10), ("gaussian_pyramid", 3)]
+        ("crop_to_true_mask", 10), ("warp_to_shape", 40), ("warp_to_mask", 16), ("pyramid", 10), ("gaussian_pyramid", 3),
+        ("warp_class", 36), ("chain", 30), ("constrain_landmarks", 4)]
 NONAFF = [("pwa_shape", 8), ("pwa_mask", 8), ("tps_shape", 6), ("tps_mask", 6)]
 OPS3 = [("rescale", 8), ("resize", 4), ("crop", 8), ("mirror", 4), ("zoom", 4), ("warp_to_shape", 8)]
 
@@ -1248,25 +1876,52 @@ def make_case(rng, dim, name):
     if dim == 3:
         case = base_case(rng, 3)
         case["op"] = gen_op3(rng, name, case)
-        return fix_cval(case)
+        return finish_case(rng, case)
     if name[:3] in ("pwa", "tps"):
         case = base_case(rng, 2, shape=[8, 8])
         case["op"] = gen_nonaffine(rng, name, case)
-        return fix_cval(case)
+        return finish_case(rng, case)
+    if name == "warp_class":
+        case = base_case(rng, 2, shape=[rng.randint(14, 40), rng.randint(14, 40)])
+        case["op"] = gen_class_warp(rng, case)
+        lm = class_landmarks(rng, case["op"], case["shape"], rng.randint(2, 4))
+        if lm:
+            case["groups"] = {"g0": lm}
+        return finish_case(rng, case)
+    if name == "chain":
+        case = base_case(rng, 2, shape=[rng.randint(12, 40), rng.randint(12, 40)])
+        case["op"] = gen_chain(rng, case)
+        fix_cval(dict(case, op=case["op"]["last"]))
+        return case
+    if name == "constrain_landmarks":
+        case = base_case(rng, 2)
+        case["op"] = gen_constrain(rng, case)
+        return case
     if name == "pyramid":
         case = base_case(rng, 2, shape=[rng.randint(24, 40), rng.randint(24, 40)], lm_hi=0.5)
     elif name == "gaussian_pyramid":
         case = base_case(rng, 2, shape=[rng.randint(64, 72), rng.randint(64, 72)], cls=rng.choice(["img", "masked"]), lm_lo=0.3, lm_hi=0.6)
-        if case["dtype"] == "uint8":
+        if case["dtype"] in INT_DTYPES:
             case["dtype"] = "float64"
             case["chans"] = [gen_content(rng, case["shape"], "float64", force_aff=True) for _ in case["chans"]]
     elif name == "crop_to_true_mask":
         case = base_case(rng, 2, cls="masked")
     else:
         case = base_case(rng, 2)
+    if name in ("rescale_to_diagonal", "rescale_to_pointcloud", "rescale_landmarks_to_diagonal_range") and min(case["shape"]) < 3:
+        # a derived scale of 1/2 would collapse an extent of two pixels onto one (outside the documented domain)
+        case = base_case(rng, 2, shape=[max(3, x) for x in case["shape"]], cls=case["cls"])
     case["op"] = gen_op2(rng, name, case)
     if name == "rescale_to_diagonal":
         case["order"] = 1
+    return finish_case(rng, case)
+
+
+def finish_case(rng, case):
+    """options every direct warp accepts: batch_size (the points are transformed in batches; the result must not
+    depend on it)"""
+    if case["op"]["name"] in WARPS:
+        case["op"]["batch"] = rng.choice([None, None, None, 5, 16, 1000])
     return fix_cval(case)
 
 
@@ -1275,9 +1930,9 @@ def fix_cval(case):
     BooleanImage is given a bool"""
     m = case["op"].get("mode")
     if m and m[0] == "const":
-        if case["dtype"] == "uint8":
+        if case["dtype"] in INT_DTYPES:
             m[1] = {0.5: 1.0, -1.0: 7.0, 2.5: 3.0}.get(m[1], m[1])
-        if case["cls"] == "bool" and case["op"]["name"] in ("warp_to_shape", "warp_to_mask", "pwa_shape", "pwa_mask", "tps_shape", "tps_mask"):
+        if case["cls"] == "bool" and case["op"]["name"] in WARPS:
             m[1] = 1.0 if m[1] else 0.0
     return case
 
@@ -1299,16 +1954,48 @@ def search(ctx):
     bad = sorted({m[0] for m in ctx.mismatches})
     r = Run(ctx, model=False)
     before = ctx.evaluations
-    if bad:
-        explore(r, 6, only=set(bad))
+    if ctx.broken_obligations:
+        # a regenerated table changed (a class overrides a funnel method, a family class moves landmarks with another
+        # pseudoinverse, an operation no longer goes through warp_to_shape once): every class / operation, directly
+        explore(r, 4, only={"warp_class", "warp_to_shape", "warp_to_mask", "chain"})
+        if not ctx.failures:
+            explore(r, 2)
+    if bad and not ctx.failures:
+        explore(r, 6, only=set(bad) | ({"chain"} if set(bad) & set(CHAIN_LAST) else set()))
     if not ctx.failures:
         explore(r, 2)
     ctx.searched += ctx.evaluations - before
     return bool(ctx.failures)
 
 
+def generated(ctx):
+    files, rows = extract_c01.lean_files(with_counts=True)
+    ok = common.build_generated(ctx, files, extract_c01.TARGETS, extract_c01.N_OBLIGATIONS)
+    ctx.count("regenerated-tables:" + ("ok" if ok else "BROKEN"))
+    ctx.notes["regenerated_rows"] = rows
+
+
+def prepare(ctx):
+    """regenerate the tables and their obligations, build, audit.  When a regenerated obligation no longer checks
+    (recorded in ctx.broken_obligations: a finding about /repo, not an infrastructure error) the audit covers the
+    hand-written theorems only, since GenProps/C01.olean does not exist then."""
+    generated(ctx)
+    if ctx.broken_obligations:
+        imports = [m for m in IMPORTS if "GenProps" not in m]
+        theorems = [t for t in THEOREMS if ".GenProps." not in t]
+    else:
+        imports, theorems = IMPORTS, THEOREMS
+    common.prepare_lean(ctx, PROP, imports, theorems)
+
+
 def run(ctx):
-    common.prepare_lean(ctx, PROP, IMPORTS, THEOREMS)
+    prepare(ctx)
+    ctx.trusted += ["harness/extract_c01.py (extraction of the dispatch / family / funnel tables from the live classes)",
+                    "scipy.ndimage.map_coordinates orders 2-5 (spline prefilter): taken as an interpolating sampler — checked at "
+                    "grid points on every case that uses them; scipy.ndimage.gaussian_filter: a symmetric kernel of total weight "
+                    "1 with the reflect rule — kernel measured and checked on every run, pixels compared with the model",
+                    "square roots taken by rescale_to_diagonal / rescale_to_pointcloud / rescale_landmarks_to_diagonal_range "
+                    "(their squares are compared with the exact quantities of the model)"]
     ctx.trusted += ["scipy.ndimage.map_coordinates (orders 0/1, constant/nearest) as modelled by axis1 — checked on every sampled pixel",
                     "Homogeneous.pseudoinverse = matrix inverse (C04); PiecewiseAffine / ThinPlateSplines apply & pseudoinverse (C04, C09)",
                     "numpy cos/sin/deg2rad of the generated angles"]
@@ -1327,7 +2014,7 @@ def replay(ctx, path):
     else:
         cases = [case]
     print(json.dumps({k: data.get(k) for k in ("property", "kind", "site", "pattern", "what")}, indent=1))
-    common.prepare_lean(ctx, PROP, IMPORTS, THEOREMS)
+    prepare(ctx)
     r = Run(ctx)
     for c in cases:
         r.do_case(c)
